@@ -418,6 +418,9 @@ type claimsView struct {
 	expK, iatK byte // 'a' absent 'n' number 'b' bad
 	exp, iat   int64
 	expF, iatF float64 // the JSON numbers before Go's int64 conversion
+	nbfK       byte
+	nbf        int64
+	nbfF       float64
 	subK       byte    // 'a' 's' 'n'
 	sub        string
 }
@@ -441,6 +444,7 @@ func viewClaims(seg string) claimsView {
 	var cv claimsView
 	cv.expK, cv.exp, cv.expF = numClaim(m, "exp")
 	cv.iatK, cv.iat, cv.iatF = numClaim(m, "iat")
+	cv.nbfK, cv.nbf, cv.nbfF = numClaim(m, "nbf")
 	if v, ok := m["sub"]; !ok {
 		cv.subK = 'a'
 	} else if s, ok := v.(string); ok {
@@ -465,13 +469,17 @@ func (cv claimsView) line() string {
 	if cv.subK == 's' {
 		sub = "s:" + hx([]byte(cv.sub))
 	}
-	return "ok " + num(cv.expK, cv.exp) + " " + num(cv.iatK, cv.iat) + " " + sub
+	return "ok " + num(cv.expK, cv.exp) + " " + num(cv.iatK, cv.iat) + " " + sub + " " + num(cv.nbfK, cv.nbf)
 }
 
 // timeValid: the property's "unexpired, not too old" on the reference side, on the claims'
 // mathematical values (whole seconds, as the token format defines them) — no int64 wrap-around.
 func (cv claimsView) timeValid(now, maxAge int64) bool {
-	if cv.expK == 'b' || cv.iatK == 'b' {
+	if cv.expK == 'b' || cv.iatK == 'b' || cv.nbfK == 'b' {
+		return false
+	}
+	// "not before": a token whose validity has not begun is not currently valid
+	if cv.nbfK == 'n' && float64(now) < math.Trunc(cv.nbfF) {
 		return false
 	}
 	if cv.expK == 'n' && float64(now) >= math.Trunc(cv.expF) {
